@@ -173,7 +173,7 @@ def obligations(tier, seed):
             obs.append(ob_history(2, first % 2 == 1, first=first))
     if not q:
         for first in (0, 1, 3, 7):
-            obs.append(ob_history(3, True, first=first))
+            obs.append(ob_history(3, True, first=first, nchar=1))
     return obs
 
 
